@@ -84,11 +84,11 @@ def static(obj, recv=None):
 class Frame:
     def __init__(self, fn, contract):
         self.fn = getattr(fn, '__func__', fn)
-        self.globals = self.fn.__globals__
+        self.globals = getattr(self.fn, '__globals__', {})
         self.contract = contract
         self.node = None
         self.loop_ord = {}
-        self.qualname = repo.qualname_of(self.fn)
+        self.qualname = '%s.%s' % (getattr(self.fn, '__module__', '?'), getattr(self.fn, '__qualname__', getattr(self.fn, '__name__', '?')))
 
 
 class SpecCtx:
